@@ -901,6 +901,11 @@ def run(prop, seed, budget, ctx):
         vf, vn, vd = engine_validate.e2e_locations(seed, budget)
         for f in vf: hist["P:" + f["why"][0]] += 1
         failures += vf; distinct |= vd; hist["validator-classes-under-an-aliaser"] = vn
+        import corners8
+        c8f_, c8n_, c8d_, c8h_ = corners8.run_part("C02", seed, budget)
+        failures += c8f_; distinct |= c8d_; vn += c8n_
+        for k_, v_ in c8h_.items(): hist[k_] += v_
+        for f in c8f_: hist["P:" + f["why"][0].split(":")[0]] += 1
         import corners7
         gf, gn, gd, gh = corners7.run_part("C02", seed, budget)
         failures += gf; distinct |= gd; vn += gn
